@@ -359,6 +359,23 @@ fn inits_uncached(scheme: Scheme, own: u64) -> Vec<(String, u64, Init)> {
             v.push((format!("decoded-size-{target}-seq-{seq}"), seq, Init::Decode(r2.bytes())));
         }
     }
+    // decoded records whose OWN key entry is in the 65-byte uncompressed form (the decoder accepts it; every update
+    // rewrites it compressed, 32 bytes shorter), small and near the size limit
+    if scheme == Scheme::Secp && !cfg!(miri) {
+        if let Some((_, u)) = crate::refimpl::sig::secp_normalise(&key.pub_bytes()) {
+            let mut unc = vec![4u8];
+            unc.extend_from_slice(&u);
+            for (target, seq) in [(0usize, 3u64), (286, 9), (299, 300)] {
+                let mut rec = Rec::minimal(key, seq);
+                rec.map.insert(b"secp256k1".to_vec(), Item::S(unc.clone()));
+                rec.map.insert(b"udp".to_vec(), Item::S(vec![0x76, 0x5f]));
+                let rec = if target == 0 { Some(rec) } else { gen::pad_to(&rec, b"pad", target) };
+                if let Some(r2) = rec {
+                    v.push((format!("decoded-uncompressed-key-{target}"), seq, Init::Decode(r2.bytes())));
+                }
+            }
+        }
+    }
     // a decoded record with nested list values and both families
     {
         let mut rec = Rec::minimal(key, 41);
@@ -407,8 +424,8 @@ pub fn random_op(r: &mut impl RngCore, alpha: &[Op], scheme: Scheme) -> Op {
         }
     };
     let key = |r: &mut dyn RngCore| -> Vec<u8> {
-        const KS: [&[u8]; 12] = [b"x", b"y", b"pad", b"eth2", b"a", b"zz", b"tcp", b"udp", b"ip", b"ip6", b"client", b"id"];
-        KS[(r.next_u32() % 12) as usize].to_vec()
+        const KS: [&[u8]; 16] = [b"x", b"y", b"pad", b"eth2", b"a", b"zz", b"tcp", b"udp", b"ip", b"ip6", b"client", b"id", b"quic", b"quic6", b"eth", b"snap"];
+        KS[(r.next_u32() % 16) as usize].to_vec()
     };
     match below(r, 14) {
         0 => Op::SetSeq(if below(r, 2) == 0 { *pick(r, &gen::SEQ_EDGES) } else { r.next_u64() >> below(r, 64) }),
